@@ -353,6 +353,8 @@ def dynamic_part(ck, rng, quick):
                 ck.fail("input", sig, "instrumented semaphore: %s [%s] in scenario `%s`" % (text, (m.group(2) or "").strip(), line), rep)
             if l.startswith("hang"):
                 ck.fail("input", "hang:%s%s" % (kind, ":reent" if "reent=1" in line else ""), "scenario did not finish (deadlock watchdog): `%s`" % line, rep)
+            if l.startswith("shared "):
+                ck.fail("input", "race:shared-decode-object:%s" % kind, "connection threads share an object: %s (scenario `%s`)" % (l.split(None, 1)[1], line), rep)
             if l.startswith("window "):
                 ck.fail("input", "atomicity:window:%s" % kind, "k-window test and send are not one atomic step: %s (scenario `%s`)" % (l.split(None, 2)[2], line), rep)
         races = tsan_races(err) if variant == "tsan" else []
